@@ -32,7 +32,8 @@ CONSTANTS
   Ops,      \* operations modelled in this run, subset of AllOps (they are independent)
   Mutant    \* "" = faithful mechanism; otherwise the name of a deliberately wrong disjunct
 
-AllOps == {"get", "iterate", "keys", "assign", "delete"}
+\* ("cauto" / "cplain": operations an extension adds with register_op, with / without an autodiscovery function)
+AllOps == {"get", "iterate", "keys", "assign", "delete", "cauto", "cplain"}
 \* (zero-arity definitions: TLC evaluates them once, whereas a constant overridden in the cfg by
 \* an expression is re-evaluated at every use)
 USub  == U.sub
@@ -41,7 +42,9 @@ UAuto == U.auto
 UMro  == U.mro
 Sub(a, b)    == b \in USub[a]                     \* issubclass(a, b)
 IsInst(T, c) == c \in UInst[T]                    \* isinstance(T(), c)
-Ducks        == {"_AbstractIterable", "_ObjStyleKeys"}
+\* types that are never the type of an object: the two duck types of glom (__subclasshook__ / metaclass
+\* __instancecheck__), ABCs that classes are registered with, user duck types
+Ducks        == DOMAIN USub \ DOMAIN UInst
 ObjTypes     == DOMAIN UInst                      \* instantiable types
 
 \* ---- handlers ------------------------------------------------------------------------
@@ -222,7 +225,7 @@ NoMk == [n |-> 0]
 
 EmptyRegistry(kind) ==
   [kind |-> kind, live |-> TRUE, auto |-> <<>>, map |-> [op \in AllOps |-> <<>>],
-   tree |-> [op \in AllOps |-> <<>>], cache |-> <<>>, made |-> <<>>]
+   tree |-> [op \in AllOps |-> <<>>], cache |-> <<>>, made |-> <<>>, xops |-> <<>>]
 RECURSIVE MDefaults(_, _)
 MDefaults(R, i) ==
   IF i > Len(DefaultRegs) THEN R
@@ -261,6 +264,9 @@ LMade(R) == IF HasDefaults(R.kind) THEN DefaultMade \o R.made ELSE R.made
 \* getattr", iterate "defaults to iter if the type appears to be iterable"; assign / delete are
 \* listed among the builtin operations): registering a type registers it for all of them.
 LawAutoOps == {"iterate", "get", "assign", "delete"}
+\* register_op(op, auto_func) adds an operation to one registry: from then on every registered type -- registered
+\* before or after -- is registered for it, with the handler auto_func finds (False without auto_func)
+LawAutos(R) == LawAutoOps \cup Range(R.xops)
 \* (the operators below take made = LMade(R) so that it is built once per question)
 LCovering(made, op, autos) == {i \in 1..Len(made) : op \in autos \/ op \in KwOps(made[i].kw)}
 LRegistered(made, op, autos) == {made[i].t : i \in LCovering(made, op, autos)}
@@ -295,7 +301,7 @@ LAllowedC(made, registered, fuzzy, T, op) ==
 LAllowedM(made, T, op, autos) ==
   LAllowedC(made, LRegistered(made, op, autos), LFuzzy(made, op, autos), T, op)
 \* THE LAW: the handler used for an instance of T is one of these (usually exactly one)
-LAllowed(R, T, op) == LAllowedM(LMade(R), T, op, LawAutoOps)
+LAllowed(R, T, op) == LAllowedM(LMade(R), T, op, LawAutos(R))
 
 (***************************************************************************************)
 (* MACHINE                                                                             *)
@@ -332,6 +338,13 @@ NewGlommer(r, setorder) ==
                  ELSE PristineFor(RegKind[r], setorder)]
   /\ hist' = Append(hist, [a |-> "new", r |-> r])
 
+\* register_op on a live registry (byname: the known types sorted by name; setorder: the iteration order of the Python
+\* set of known types -- both supplied by the environment)
+RegisterOpAct(r, op, byname, setorder) ==
+  /\ regs[r].live /\ op \notin Range(regs[r].auto)
+  /\ regs' = [regs EXCEPT ![r] = [MRegisterOp(@, op, byname, setorder) EXCEPT !.xops = Append(@, op)]]
+  /\ hist' = Append(hist, [a |-> "regop", r |-> r, op |-> op])
+
 \* One wildcard step ('*', and every level of '**') on an instance of T: glom.core._extend_children asks the
 \* registry for the 'keys' handler and then the 'get' handler; if either is missing (UnregisteredTarget) it asks for
 \* the 'iterate' handler instead; with neither the target has no children.  Three memoised lookups in that order.
@@ -364,8 +377,8 @@ NearestLaw(objs) ==
   \A r \in Live : \A op \in Ops :
     LET R == regs[r]
         made == LMade(R)
-        registered == LRegistered(made, op, LawAutoOps)
-        fuzzy == LFuzzy(made, op, LawAutoOps)
+        registered == LRegistered(made, op, LawAutos(R))
+        fuzzy == LFuzzy(made, op, LawAutos(R))
     IN \A T \in objs : MResolve(R, T, op) \in LAllowedC(made, registered, fuzzy, T, op)
 \* the memo is coherent: whatever it holds is what a fresh resolution gives now, so a
 \* register() is in effect for the very next lookup and earlier lookups do not matter
@@ -382,7 +395,7 @@ IsolationStep ==
   LET a == hist'[Len(hist')] IN \A r \in DOMAIN regs : r # a.r => regs'[r] = regs[r]
 \* a Glommer() nobody registered on behaves like the untouched module-level glom
 FreshGlommerLikeDefault(objs, pristineDefault) ==
-  \A r \in Live : regs[r].kind = "glommer" /\ regs[r].made = <<>> =>
+  \A r \in Live : regs[r].kind = "glommer" /\ regs[r].made = <<>> /\ regs[r].xops = <<>> =>
     \A T \in objs : \A op \in Ops : MResolve(regs[r], T, op) = MResolve(pristineDefault, T, op)
 \* the tree invariant glom's docstring states: a key is a valid parent type of all its children
 RECURSIVE TreeParents(_, _)
